@@ -36,6 +36,14 @@ def load_baseline(pid):
     return json.load(open(p)).get(pid)
 
 
+def oid_match(oid, pat):
+    """exact match, or glob with literal brackets (obligation ids contain [..] tags)"""
+    if oid == pat:
+        return True
+    esc = pat.replace("[", "\0").replace("]", "\1").replace("\0", "[[]").replace("\1", "[]]")
+    return fnmatch.fnmatchcase(oid, esc)
+
+
 def sanitize(s):
     return re.sub(r"[^A-Za-z0-9_.#-]+", "_", s)[:150]
 
@@ -90,7 +98,9 @@ def run_property(pid, tier, seed):
             seen[o.oid] = 0
     results = discharge_all(obs, tier) if obs else []
     t_solve = time.time() - t0 - t_gen
+    t_c0 = time.time()
     vac, cover_stats = cover_check(obs, results)
+    cover_stats["seconds"] = round(time.time() - t_c0, 2)
     for v in vac:
         b.tool_faults.append(f"vacuous clause (hypotheses unsatisfiable on every path): {v}")
     known = [k for k in load_known() if k["property"] == pid]
@@ -111,7 +121,7 @@ def run_property(pid, tier, seed):
         # refuted
         hit = None
         for k in known:
-            if k.get("status", "known") == "known" and fnmatch.fnmatch(o.oid, k["obligation"]):
+            if k.get("status", "known") == "known" and oid_match(o.oid, k["obligation"]):
                 hit = k
                 break
         if hit:
@@ -121,15 +131,20 @@ def run_property(pid, tier, seed):
     # replay + report violations
     rdir = os.path.join(VERIF, "replays", pid)
     os.makedirs(rdir, exist_ok=True)
-    for o, r in violations:
-        rp = os.path.join(rdir, sanitize(o.oid) + ".json")
-        rep = None
+    def _replay_one(o_r):
+        o, r = o_r
         fn = b.find_replayer(o.oid)
-        if fn is not None:
-            try:
-                rep = fn(o, r)
-            except Exception as ex:
-                rep = {"replayed": False, "error": f"{type(ex).__name__}: {ex}"}
+        if fn is None:
+            return None
+        try:
+            return fn(o, r)
+        except Exception as ex:
+            return {"replayed": False, "error": f"{type(ex).__name__}: {ex}"}
+    from concurrent.futures import ThreadPoolExecutor
+    with ThreadPoolExecutor(max_workers=8) as tp:
+        reps = list(tp.map(_replay_one, violations))
+    for (o, r), rep in zip(violations, reps):
+        rp = os.path.join(rdir, sanitize(o.oid) + ".json")
         doc = dict(property=pid, obligation=o.oid, function=o.fn, clause=o.clause, goal=str(o.goal)[:2000],
                    hypotheses=[str(h)[:300] for h in o.hyps][:40], verdict=r["verdict"], backend=r["backend"],
                    verifier_output=r.get("reason"), model=r.get("model"), meta=jsonable(o.meta), replay=jsonable(rep),
@@ -185,6 +200,8 @@ def run_property(pid, tier, seed):
             print(f"  {r['verdict']:10s} {r['backend']:10s} {r.get('seconds', 0):6.2f}s  {o.oid}   [{o.clause[:70]}]")
     for ln in lines:
         print(ln)
+    if os.environ.get("TPV_VERBOSE") or os.environ.get("TPV_TIMING"):
+        print(f"  timing: generation {t_gen:.1f}s solving {t_solve:.1f}s cover {cover_stats.get('seconds')}s total {wall:.1f}s")
     print(f"[{pid}] tier={tier} obligations={n_ob} discharged={n_dis} known-findings={n_known} violations={len(violations)} "
           f"undecided={len(undecided)} subset-exits={len(b.subset_exits)} faults={len(b.tool_faults)} wall={wall:.1f}s exit={status}")
     if status == 2:
